@@ -452,6 +452,36 @@ theorem block_size_ge_2_14 (s : BV.Stream.St) (hni : s.isInitialized = false)
     2 ^ 14 ≤ (BV.Stream.ensureInitialized s).blockSize :=
   BV.StreamBlocks.blockSize_ge s hni hq
 
+/-- the same fact on THIS model, whose literals are regenerated from `ComputeLgBlock` and which the
+harness compares with the code's `params.lgblock` after initialisation on the whole
+quality × lgwin × requested-lgblock grid (`header lgblock` lines): at quality ≥ 2 the input block
+is 2^14 ‥ 2^24 bytes, whatever `lgwin` and whatever `lgblock` was requested -/
+theorem header_lgblock_ge_14 (p : Params) (hq : 2 ≤ p.quality) :
+    14 ≤ (ensureInitialized true p).params.lgblock ∧ (ensureInitialized true p).params.lgblock ≤ 24 := by
+  have hs := sanitize_quality true p
+  have hw := sanitized_lgwin_range p
+  simp only [ensureInitialized, computeLgBlock, lit, litsLgb, BV.Gen.lits_ComputeLgBlock, List.getD_cons_zero,
+    List.getD_cons_succ]
+  rw [hs]
+  generalize (sanitizeParams true p).lgwin = w at *
+  generalize (sanitizeParams true p).lgblock = b at *
+  split
+  · omega
+  · split
+    · omega
+    · split
+      · split <;> omega
+      · omega
+
+/-- the two hand-written mirrors of `ComputeLgBlock` (this model; the stream machine's model used
+by `block_size_ge_2_14`) are the same function -/
+theorem lgblock_models_agree (sp : BV.Stream.Params) (hp : Params)
+    (h1 : hp.quality = sp.quality) (h2 : hp.lgwin = sp.lgwin) (h3 : hp.lgblock = sp.lgblock) :
+    computeLgBlock hp = BV.Stream.computeLgBlock sp := by
+  simp only [computeLgBlock, BV.Stream.computeLgBlock, lit, litsLgb, BV.Gen.lits_ComputeLgBlock, List.getD_cons_zero,
+    List.getD_cons_succ, h1, h2, h3]
+  rfl
+
 /-- lengths that each (but the last) cover 2^14 bytes, the first counted with the prelude, are `BlocksOK` -/
 theorem blocks_ok_of_cover (lens : List Nat) (extra : Nat)
     (h : ∀ i, i + 1 < lens.length → 2 ^ 14 ≤ lens.getD i 0 + (if i = 0 then extra else 0)) :
